@@ -57,10 +57,13 @@ type OneshotFault struct {
 }
 
 type Plan struct {
-	Peers     map[string]*PeerPlan `json:"peers,omitempty"`
-	Oneshot   []OneshotFault       `json:"oneshot,omitempty"`
-	Sched     []int                `json:"sched,omitempty"`
-	RealPeers bool                 `json:"real_peers,omitempty"`
+	Peers   map[string]*PeerPlan `json:"peers,omitempty"`
+	Oneshot []OneshotFault       `json:"oneshot,omitempty"`
+	Sched   []int                `json:"sched,omitempty"`
+	// GoYields: schedule for the yield points compiled into git-sizer's own
+	// code (locks, channel operations, goroutine starts); see sim/yieldpt.
+	GoYields  []int `json:"go_yields,omitempty"`
+	RealPeers bool  `json:"real_peers,omitempty"`
 	// StdoutFailAt > 0: git-sizer's stdout accepts StdoutFailAt-1 bytes and
 	// then fails every write ("no space left on device"); 0 = no fault.
 	StdoutFailAt int `json:"stdout_fail_at,omitempty"`
